@@ -8,15 +8,27 @@ DevSeq  == {-1, 0, 1}         \* same (retransmission / false retry), next, skip
 DevSid  == {-1, 0, 1}         \* old, current, future state id seqid
 NoRanges   == {}
 RangesSeq  == {<<0, 1, "norm">>}
+\* (NB = 2 in the lock configuration: <<0, 2, "norm">> is "all ones" on the wire,
+\* <<2, 2, "eof">> is the last byte alone)
 RangesLock == {<<0, 1, "norm">>, <<0, 2, "norm">>, <<1, 1, "eof">>, <<1, 1, "zero">>}
+RangesLast == {<<1, 1, "eof">>, <<2, 2, "eof">>}
 RangesSim  == {<<0, 2, "norm">>, <<1, 3, "norm">>, <<2, 6, "norm">>, <<3, 3, "eof">>, <<0, 6, "norm">>,
-               <<4, 4, "zero">>, <<2, 3, "ovf">>}
+               <<4, 4, "zero">>, <<2, 3, "ovf">>, <<6, 6, "eof">>, <<5, 5, "eof">>}
+FirstOne  == {1}
+FirstWrap == {1, -2}          \* -2 = 2^32-2: the open-owner seqid wraps to 1 two requests later
 
 \* Vacuity probes: each of these must be *violated* in the configuration
 \* named in the comment (checked by hand, never part of a cfg that must pass).
 Vac_Replay     == last.ctx # "replay"                               \* seq
 Vac_FalseRetry == last.ctx # "falseretry"                           \* seq
 Vac_Misordered == last.ctx # "misordered"                           \* seq
+Vac_LaxCache   == ~(last.ctx = "laxretry" /\ last.rep.st = "OK")    \* seq
+Vac_LaxReject  == ~(last.ctx = "laxretry" /\ last.rep.st = "BAD_SEQID")  \* seq
+Vac_Wrapped    == \A k \in DOMAIN s.oo : ~(s.oo[k].lastseq = 1 /\ s.oo[k].confirmed /\ s.nsid = 1 /\ s.oofs[1].q > 2)  \* seq
+Vac_OpenInFlight == \A i \in DOMAIN s.io : s.io[i].kind # "open"   \* seq, open
+Vac_ReplayAfterFlight == ~(last.ctx = "replay" /\ last.req.op = "OPEN" /\ last.req.gate)  \* seq
+Vac_LastByte   == \A f \in DOMAIN s.held : \A o \in DOMAIN s.held[f][NB] : o \in DOMAIN s.held[f][NB - 1]  \* lastbyte
+Vac_LastByteRefused == last.rep.st # "BAD_RANGE"  \* lastbyte
 Vac_OldSid     == last.rep.st # "OLD_STATEID"                       \* seq
 Vac_ClosedPhase == \A t \in DOMAIN s.oofs : s.oofs[t].st # "closed"  \* seq, open
 Vac_Zombie     == \A t \in DOMAIN s.oofs : s.oofs[t].st # "gone"    \* open
